@@ -387,6 +387,16 @@ def install(I):
             return [(const(0, 1), st)]
         if c1 == 1 and c2 == 1:
             return [(const(1, 1), st)]
+        clo, chi = int_const(lo), int_const(hi)
+        if clo is not None and chi is not None and x[6] is not None:
+            # undecided membership in a constant range: case split, the member side knows the value's range
+            top_ = chi if incl else chi - 1
+            nlo, nhi = max(clo, x[4]), min(top_, x[5])
+            if nlo > nhi:
+                return [(const(0, 1), st)]
+            s2 = st.fork()
+            s2.term_ranges[x[6]] = (nlo, nhi)
+            return [(const(1, 1), s2), (const(0, 1), st)]
         return [(top_int(1), st)]
 
     @model("RangeInclusive::new", "RangeInclusive::<Idx>::new")
@@ -636,6 +646,8 @@ def install(I):
                 return cnt, ptr(loc[0], loc[1], loc[2], (win_start, const(n, 64)), base[5] if is_ptr(base) else False)
             idx = mk_int(64, False, None, 0, max(ln[5] - 1, 0))
             return cnt, ptr(loc[0], loc[1], loc[2] + (("i", idx if int_const(start) == 0 else int_binop("Add", start, idx), None),), None, False)
+        if it[1] == "array":
+            return len(it[2][0]), TOP
         if it[1] == "enumerate":
             cnt, item = iter_items(I, st, it[2][0])
             return cnt, agg("tuple", None, None, [mk_int(64, False, None, 0, max(cnt - 1, 0)), item])
@@ -677,6 +689,47 @@ def install(I):
         I.write_loc(st, (p[1], p[2], p[3], None), new)
         return [(old, st)]
 
+    @model("<impl [T]>::split_at_mut", "<impl [T]>::split_at", "slice::split_at_mut", "slice::split_at")
+    def split_at(I, st, a, ctx):
+        # (&s[..mid], &s[mid..]) as two windows on the same storage
+        sv = slice_view(I, st, a[0])
+        if sv is None or len(a) != 2 or not is_int(a[1]) or not is_int(sv[2]):
+            return NotImplemented
+        loc, start, ln, _e = sv
+        mid = a[1]
+        okb = int_const(I.cmp("Le", mid, ln, st)) == 1
+        panic_ob(I, st, ctx, "split_at:bounds", okb, "split_at(%s) may exceed length %s" % (I.show(mid), I.show(ln)))
+        if not okb:
+            return NotImplemented
+        mut = "mut" in (ctx.get("term", {}).get("callee") or "")
+        s2 = mid if int_const(start) == 0 else int_binop("Add", start, mid)
+        left = ptr(loc[0], loc[1], loc[2], (start, mid), mut)
+        right = ptr(loc[0], loc[1], loc[2], (s2, int_binop("Sub", ln, mid)), mut)
+        return [(agg("tuple", None, None, [left, right]), st)]
+
+    @model("<impl [T]>::contains", "slice::contains")
+    def slice_contains(I, st, a, ctx):
+        # s.contains(&x) over integers: decided when every element comparison is
+        sv = slice_view(I, st, a[0])
+        xp = a[1]
+        x = I.read_loc(st, (xp[1], xp[2], xp[3], None)) if is_ptr(xp) else xp
+        if sv is None or not is_int(x):
+            return [(top_int(1), st)]
+        loc, start, ln, _e = sv
+        s0, n = int_const(start), int_const(ln)
+        if s0 is None or n is None or n > 64:
+            return [(top_int(1), st)]
+        undecided = False
+        for i in range(n):
+            e = I.read_loc(st, (loc[0], loc[1], loc[2] + (("i", const(s0 + i, 64), None),), None))
+            if not is_int(e):
+                return [(top_int(1), st)]
+            c = int_const(I.cmp("Eq", e, x, st))
+            if c == 1:
+                return [(const(1, 1), st)]
+            undecided = undecided or c is None
+        return [(top_int(1) if undecided else const(0, 1), st)]
+
     @model("<impl [T]>::get", "<impl [T]>::get_mut", "slice::get", "slice::get_mut")
     def slice_get(I, st, a, ctx):
         # s.get(i) with a usize index: Some(&s[i]) when i < len, else None (range arguments are left to the caller)
@@ -704,6 +757,8 @@ def install(I):
 
     @model("Iterator::zip")
     def zip_(I, st, a, ctx):
+        # (a by-value array iterator is the array of its remaining items, see next_)
+        a = [("iter", "array", (tuple(x[1]),)) if isinstance(x, tuple) and x and x[0] == "arr" else x for x in a]
         if all(isinstance(x, tuple) and x and x[0] == "iter" for x in a[:2]) and len(a) >= 2:
             return [(("iter", "zip", (a[0], a[1])), st)]
         return NotImplemented
@@ -712,6 +767,11 @@ def install(I):
         """one exact step of an iterator over storage of known length: (item | None when exhausted, iterator afterwards);
         NotImplemented when the length is not a constant"""
         pos = it[3] if len(it) > 3 else 0
+        if it[1] == "array":
+            items = it[2][0]
+            if pos >= len(items):
+                return None, it
+            return items[pos], (it[0], it[1], it[2], pos + 1)
         if it[1] in ("slice", "chunks"):
             base, n, ln = it[2]
             total = int_const(ln)
